@@ -28,6 +28,30 @@ CLAIMS = {
             "Every history up to depth 4/5 on a real on-disk leveldb store with trace-level logging; after every operation the raw store files, every key/value pair (raw iterator, so compressed tables are covered), every export and all new log bytes are searched for the seed, every extended/child private key on the used paths, the four key-encryption keys of each keystore and all passphrases in 5-6 encodings; every stored/exported blob is trial-decrypted with the keys derivable from the public passphrase alone and its plaintext searched.",
             "crypto treated as opaque (secretbox/scrypt); OS swap/core dumps and gRPC request logging outside the wallet code are not covered; api.Server.ExportKeystore writes exactly the bytes ExportKeystore returns (by reading)",
             "DESIGN.md §C04"),
+    "C07": ("exploration",
+            "bounded-exhaustive enumeration of window plans (memory configurations) of the real two-pass plotter at small bit lengths against a brute-force reference table",
+            "seqx",
+            "The real plotting code is driven through hook H1 (cache size per window) at bit lengths 7, 8, 10 (record sizes 1-2) and 17, 18 (record size 3, with the map-A read buffer scaled through hook VerifMapABuf to small powers of two and unscaled); bl 8: every constant cache size for each pass, every sequence of <=2 (thorough 3) per-window sizes over a 9-value alphabet, all pairs of sizes for both passes; after Plot() returns: map A at removal equals the reference, every stored entry is a valid proof for its prefix, every prefix with a candidate pair has an entry, the table is byte-identical to the single-window table. Thorough adds bl 24 (the only supported bit length that fits the sandbox).",
+            "pocutil.P/F are the definition; supported bit lengths 26-40 are not plotted (small-scope argument in DESIGN §P); GetProof/poc.VerifyProof reject bit lengths below 24, so served-proof checks run only at bl 24",
+            "DESIGN.md §C07"),
+    "C10": ("fault_enumeration",
+            "exhaustive enumeration of interruption points x {graceful stop, crash} x synthesised durable (torn) states x resume plans on the real plotter",
+            "seqx",
+            "For every window plan, a probe run lists the H2 hook points of both passes; the plot is interrupted at every point gracefully (StopPlot, made deterministic inside the hook) and abruptly (plot goroutine abandoned); for crashes every durable state is synthesised from the last all-synced snapshot and the unsynced units (16/64-byte data blocks, atomic 8-byte checkpoint, removal of map A): all subsets when <=10 units, else prefixes/suffixes/singles/all-but-one. Each state is reopened (never falsely plotted/pre-plotted), checked for progress running ahead of durable data, and resumed under 3-5 resume plans to completion inside a livelock horizon; the resumed table must be byte-identical to the uninterrupted one. Thorough: bl 7/8/10, more plans, second interruption at the first 14 points of the resumed run.",
+            "a synced WriteAt is durable; block granularity finer than real sectors (superset of torn states); bit length 8 only in the quick tier",
+            "DESIGN.md §C10"),
+    "C16": ("exploration",
+            "bounded-exhaustive input enumeration on the real codec: full product round trip, all short byte strings, all single-byte mutations, field-class grammar with 1-2 deviations",
+            "seqx",
+            "Round trip over the full product of the per-field domains of the six message types (58,802 messages; BLS elements from the library itself): decode(encode(m)) equals m field by field and re-encodes byte-identically. Totality: every byte string of length <=3 plus every length-4 (thorough 5) string behind type prefixes 0..7; every single-byte substitution, truncation, deletion and structural insertion of 25 (thorough 607) valid encodings; all single and double field-class deviations of the JSON bodies x 9 type prefixes against an accept/reject predictor; every call under panic capture, accepted messages must re-encode/re-decode stably; per-call allocation bound (512 MiB = 256x the receive limit, measured); receive limit checked at connection.Conn over net.Pipe.",
+            "string fields are drawn from valid UTF-8 (JSON cannot carry other byte sequences; space ids produced by the code are ASCII); fractal.MessageReceiver and C-heap allocations of the BLS parser are outside; observed worst allocation 229 MB for a 2 MiB array of tiny elements (diagnostic)",
+            "DESIGN.md §C16"),
+    "C20": ("exploration",
+            "bounded-exhaustive input enumeration on the real api package against independent references (net/netip decision, big.Int decimal rendering, mass-core binding targets)",
+            "seqx",
+            "(1) 167 whitelist/LAN configurations x 3,790 RemoteAddr strings (IPv4, IPv6, mapped, bracket, zone, port variants, malformed) through getIPAccessControlFunc and accessControlHandler (403 and inner handler not run wherever the reference does not justify admission) plus a /16-granular sweep of the IPv4 space under all 16 LAN subsets; Run() and Server.Start() exercised once on real loopback sockets. (2) AmountToString/StringToAmount on every integer in [0, 2e7 -> 2e8], the top of the range, 31,789 structured values and a stride across [0, max] against integer division rendered canonically plus round trip; all short strings over a small alphabet for the parser. (3) 64 -> 1,024 keys and plot ids x all supported sizes listed through the real GetCapacitySpaces(.V2) methods against massutil binding targets / P2PKH addresses, decoded back with an independent base58check codec.",
+            "host names in RemoteAddr out of scope (resolver); amount range dense only at both ends; SHA-256/RIPEMD-160/secp256k1 shared with the reference",
+            "DESIGN.md §C20"),
     "C12": ("fault_enumeration",
             "exhaustive fault injection: every storage event of every (reached state, mutating operation) pair x {failed write/commit, crash before, crash after} on the real wallet over a fault-injecting db.DB wrapper",
             "seqx",
